@@ -107,11 +107,44 @@ func (s *Session) AuthMechanisms() []string {
 }
 
 func (s *Session) Auth(mech string) (sasl.Server, error) {
-	return s.endp.saslAuth.CreateSASL(mech, s.connState.RemoteAddr, func(identity string, data auth.ContextData) error {
-		s.connState.AuthUser = identity
-		s.connState.AuthPassword = data.Password
-		return nil
-	}), nil
+	return saslServer{
+		Server: s.endp.saslAuth.CreateSASL(mech, s.connState.RemoteAddr, func(identity string, data auth.ContextData) error {
+			s.connState.AuthUser = identity
+			s.connState.AuthPassword = data.Password
+			return nil
+		}),
+		s: s,
+	}, nil
+}
+
+// saslServer gives authentication failures their SMTP reply. go-smtp answers
+// an error without SMTP annotations with 454 4.7.0, which tells the client to
+// try the refused credentials again.
+type saslServer struct {
+	sasl.Server
+	s *Session
+}
+
+func (srv saslServer) Next(response []byte) (challenge []byte, done bool, err error) {
+	challenge, done, err = srv.Server.Next(response)
+	switch {
+	case err == nil:
+	case errors.Is(err, auth.ErrTemporaryFailure):
+		failedLogins.WithLabelValues(srv.s.endp.name).Inc()
+		err = &smtp.SMTPError{
+			Code:         454,
+			EnhancedCode: smtp.EnhancedCode{4, 7, 0},
+			Message:      "Temporary authentication failure",
+		}
+	case errors.Is(err, auth.ErrInvalidAuthCred):
+		failedLogins.WithLabelValues(srv.s.endp.name).Inc()
+		err = &smtp.SMTPError{
+			Code:         535,
+			EnhancedCode: smtp.EnhancedCode{5, 7, 8},
+			Message:      "Invalid credentials",
+		}
+	}
+	return challenge, done, err
 }
 
 func (s *Session) Reset() {
